@@ -94,6 +94,14 @@ def valCmp (a b : Val) : Option Ordering :=
   | .str x, .str y => some (compare x y)
   | .chr x, .chr y => some (compare x.toNat y.toNat)
   | .bool x, .bool y => some (compare x.toNat y.toNat)
+  | .adt "Po" _ [.int a, .int b], .adt "Po" _ [.int c, .int d] =>
+    -- the generator's partially ordered type: product order
+    match compare a c, compare b d with
+    | .eq, o => some o
+    | o, .eq => some o
+    | .lt, .lt => some .lt
+    | .gt, .gt => some .gt
+    | _, _ => none
   | _, _ => none
 
 def cmpHolds (op : CmpOp) (a b : Val) : Bool :=
@@ -213,7 +221,10 @@ def rustPrims (m : Meanings) : Prims where
   closure e v := match m.preds.lookup (squash e.text) with
     | some p => p.holds v
     | none => false
-  unitPath path v := match m.units.lookup (squash path.text) with
+  unitPath path v := match m.vals.lookup (squash path.text) with
+    | some w => valEq v w        -- the documented meaning of `field: my_variable`: equality
+    | none =>
+    match m.units.lookup (squash path.text) with
     | some (some c) => (match v with | .adt c' _ _ => c == c' | _ => false)
     | some none => true                       -- the path names nothing: a fresh binding, always matches
     | none => (match v with | .adt c' _ _ => lastSegment path.text == c' | _ => false)
